@@ -47,6 +47,14 @@ pub trait Service<Request>: Sized {
     type Future: Future<Output = Result<Self::Response, Self::Error>>;
     /// ghost log of the requests the service has been called with
     spec fn calls(&self) -> Seq<Request>;
+    /// whether the service has signalled readiness (`poll_ready` returned Ready) since its last call
+    spec fn is_ready(&self) -> bool;
+    /// `Service::call`: tower's contract is that it may only be called after `poll_ready` returned Ready
+    fn call(&mut self, req: Request) -> (f: Self::Future)
+        requires old(self).is_ready(), //# C14 name=provider_called_only_after_it_signalled_readiness
+        ensures
+            final(self).calls() == old(self).calls().push(req),
+            f.awaited() ==> f@ == provider_answer::<Self, Request, Self::Response, Self::Error>(*old(self), req);
     /// `ServiceExt::oneshot`: waits for `poll_ready`, then calls the service exactly once
     fn oneshot(&mut self, req: Request) -> (f: Self::Future)
         ensures
